@@ -53,6 +53,9 @@ def check(case, res):
                                     i, op, prev['states'][r], s['states'][r], want, s['out'])))
                 if k == 'reset':
                     last_next_stop.pop(r, None)
+                if k in ('reset', 'stop') and prev['states'][r] != 1 and not s.get('fresh', [True] * nr)[r]:
+                    bad.append(('not_initial', 'routine_transitions', i,
+                                'op %d %s left the old generator in place: the routine is not back in its initial state' % (i, op)))
             if k == 'next':
                 r = c[1]
                 b = prev['states'][r]
